@@ -33,7 +33,7 @@ def merge_copyright_lines(copyright_lines: set[str]) -> set[str]:
     # pylint: disable=too-many-locals
     # TODO: Rewrite this function. It's a bit of a mess.
     copyright_in = []
-    for line in copyright_lines:
+    for line in sorted(copyright_lines):
         for pattern in _COPYRIGHT_PATTERNS:
             match = pattern.search(line)
             if match is not None:
